@@ -318,27 +318,29 @@ def evalChecksigPreTapscript (cx : Ctx) (m : Machine) (sig pubkey : Bytes) : R B
   pure ok
 
 /-- `EvalChecksigTapscript`: (success, new machine) -/
-def evalChecksigTapscript (cx : Ctx) (m : Machine) (sig pubkey : Bytes) : R (Bool × Machine) := do
+def evalChecksigTapscript (cx : Ctx) (m : Machine) (sig pubkey : Bytes) : R (Bool × Machine) :=
+  -- The following validation sequence is consensus critical. Please note how --
+  --   upgradable public key versions precede other rules;
+  --   the script execution fails when using empty signature with invalid public key;
+  --   the script execution fails when using non-empty invalid signature.
   let success := !sig.isEmpty
-  let m ←
-    if success then
-      let w := m.weightLeft - VALIDATION_WEIGHT_PER_SIGOP_PASSED
-      if w < 0 then throw .TAPSCRIPT_VALIDATION_WEIGHT
-      pure { m with weightLeft := w }
-    else pure m
-  if pubkey.length = 0 then throw .TAPSCRIPT_EMPTY_PUBKEY
-  else if pubkey.length = 32 then
-    if success then
-      match cx.checker.checkSchnorr sig pubkey cx.sigversion m.codesepPos with
-      | some e => throw e
-      | none => pure ()
+  let w := m.weightLeft - VALIDATION_WEIGHT_PER_SIGOP_PASSED
+  if success && decide (w < 0) then .error .TAPSCRIPT_VALIDATION_WEIGHT
   else
-    if has cx.flags FLAG_DISCOURAGE_UPGRADABLE_PUBKEYTYPE then throw .DISCOURAGE_UPGRADABLE_PUBKEYTYPE
-  pure (success, m)
+    let m1 : Machine := if success then { m with weightLeft := w } else m
+    if pubkey.length = 0 then .error .TAPSCRIPT_EMPTY_PUBKEY
+    else if pubkey.length = 32 then
+      if success then
+        match cx.checker.checkSchnorr sig pubkey cx.sigversion m1.codesepPos with
+        | some e => .error e
+        | none => .ok (success, m1)
+      else .ok (success, m1)
+    else if has cx.flags FLAG_DISCOURAGE_UPGRADABLE_PUBKEYTYPE then .error .DISCOURAGE_UPGRADABLE_PUBKEYTYPE
+    else .ok (success, m1)
 
 def evalChecksig (cx : Ctx) (m : Machine) (sig pubkey : Bytes) : R (Bool × Machine) :=
   match cx.sigversion with
-  | .BASE | .WITNESS_V0 => do let ok ← evalChecksigPreTapscript cx m sig pubkey; pure (ok, m)
+  | .BASE | .WITNESS_V0 => (evalChecksigPreTapscript cx m sig pubkey).map fun ok => (ok, m)
   | .TAPSCRIPT => evalChecksigTapscript cx m sig pubkey
   | .TAPROOT => .error .UNKNOWN_ERROR
 
@@ -670,45 +672,54 @@ def isDisabled (opcode : Nat) : Bool := DISABLED.contains opcode
 def inConditionalRange (opcode : Nat) : Bool :=
   OP_IF ≤ opcode && opcode ≤ OP_ENDIF
 
+/-- the checks at the top of the loop body, all made whether or not the branch executes: push size, op count,
+    disabled op codes, OP_CODESEPARATOR under CONST_SCRIPTCODE; `pc` advances, `nOpCount` is incremented -/
+def stepChecks (cx : Ctx) (st : State) (op : Op) : R State :=
+  if op.data.length > MAX_SCRIPT_ELEMENT_SIZE then .error .PUSH_SIZE
+  else
+    let counted := (cx.sigversion == .BASE || cx.sigversion == .WITNESS_V0) && decide (op.code > 0x60)
+    if counted && decide (st.m.opCount + 1 > MAX_OPS_PER_SCRIPT) then .error .OP_COUNT
+    else if isDisabled op.code then .error .DISABLED_OPCODE
+    else if op.code == OP_CODESEPARATOR && cx.sigversion == .BASE && has cx.flags FLAG_CONST_SCRIPTCODE then
+      .error .OP_CODESEPARATOR
+    else
+      .ok { st with pos := st.pos + op.raw.length,
+                    m := { st.m with opCount := if counted then st.m.opCount + 1 else st.m.opCount } }
+
+/-- `if (fExec && opcode <= OP_PUSHDATA4) … else if (fExec || (OP_IF <= opcode && opcode <= OP_ENDIF)) switch …` -/
+def stepExec (cx : Ctx) (st : State) (op : Op) (fExec : Bool) : R State :=
+  if fExec && decide (op.code ≤ 0x4e) then
+    if has cx.flags FLAG_MINIMALDATA && !checkMinimalPush op.data op.code then .error .MINIMALDATA
+    else .ok { st with m := { st.m with stack := op.data :: st.m.stack } }
+  else if inConditionalRange op.code then execConditional cx st op.code fExec
+  else if fExec then (execPlain cx st.pos st.opcodePos st.m op.code).map fun m => { st with m := m }
+  else .ok st
+
+/-- the size limit at the bottom of the loop body, and `++opcode_pos` -/
+def stepFinish (st : State) : R State :=
+  if st.m.stack.length + st.m.alt.length > MAX_STACK_SIZE then .error .STACK_SIZE
+  else .ok { st with opcodePos := st.opcodePos + 1 }
+
 /-- one iteration of the `for (; pc < pend; ++opcode_pos)` loop, after `GetOp` succeeded -/
-def step (cx : Ctx) (st : State) (op : Op) : R State := do
-  let fExec := st.vfExec.all id
-  let st := { st with pos := st.pos + op.raw.length }
-  if op.data.length > MAX_SCRIPT_ELEMENT_SIZE then throw .PUSH_SIZE
-  let st ←
-    if (cx.sigversion == .BASE || cx.sigversion == .WITNESS_V0) && op.code > 0x60 then
-      if st.m.opCount + 1 > MAX_OPS_PER_SCRIPT then throw .OP_COUNT
-      else pure { st with m := { st.m with opCount := st.m.opCount + 1 } }
-    else pure st
-  if isDisabled op.code then throw .DISABLED_OPCODE
-  if op.code = OP_CODESEPARATOR && cx.sigversion == .BASE && has cx.flags FLAG_CONST_SCRIPTCODE then
-    throw .OP_CODESEPARATOR
-  let st ←
-    if fExec && op.code ≤ 0x4e then
-      if has cx.flags FLAG_MINIMALDATA && !checkMinimalPush op.data op.code then throw .MINIMALDATA
-      else pure { st with m := { st.m with stack := op.data :: st.m.stack } }
-    else if inConditionalRange op.code then execConditional cx st op.code fExec
-    else if fExec then do
-      let m ← execPlain cx st.pos st.opcodePos st.m op.code
-      pure { st with m := m }
-    else pure st
-  if st.m.stack.length + st.m.alt.length > MAX_STACK_SIZE then throw .STACK_SIZE
-  pure { st with opcodePos := st.opcodePos + 1 }
+def step (cx : Ctx) (st : State) (op : Op) : R State :=
+  (stepChecks cx st op).bind fun st1 => (stepExec cx st1 op (st.vfExec.all id)).bind stepFinish
 
 def run (cx : Ctx) : List Op → State → R State
   | [], st => .ok st
-  | op :: ops, st => do
-    let st' ← step cx st op
-    run cx ops st'
+  | op :: ops, st => (step cx st op).bind (run cx ops)
 
 /-- `EvalScript(stack, script, flags, checker, sigversion, execdata, serror)`: the final stack (top first) -/
-def evalWith (cx : Ctx) (stack : List Bytes) (weightLeft : Int := 0) : R (List Bytes) := do
-  if (cx.sigversion == .BASE || cx.sigversion == .WITNESS_V0) && cx.script.length > MAX_SCRIPT_SIZE then
-    throw .SCRIPT_SIZE
-  let p := parse cx.script
-  let st ← run cx p.1 { m := { stack := stack, weightLeft := weightLeft } }
-  if !p.2.isEmpty then throw .BAD_OPCODE
-  if !st.vfExec.isEmpty then throw .UNBALANCED_CONDITIONAL
-  pure st.m.stack
+def evalWith (cx : Ctx) (stack : List Bytes) (weightLeft : Int := 0) : R (List Bytes) :=
+  if (cx.sigversion == .BASE || cx.sigversion == .WITNESS_V0) && decide (cx.script.length > MAX_SCRIPT_SIZE) then
+    .error .SCRIPT_SIZE
+  else
+    let p := parse cx.script
+    match run cx p.1 { m := { stack := stack, weightLeft := weightLeft } } with
+    | .error e => .error e
+    | .ok st =>
+      -- `GetOp` failing: reached after every readable instruction ran
+      if !p.2.isEmpty then .error .BAD_OPCODE
+      else if !st.vfExec.isEmpty then .error .UNBALANCED_CONDITIONAL
+      else .ok st.m.stack
 
 end Btc.Script.Core
